@@ -144,7 +144,9 @@ var slices = map[string]slice{
 	"time": {
 		inames: []string{"/a", "/a/b"}, ifaces: []uint64{fwsim.L1, fwsim.N3}, shapes: []string{"", "short", "cbp+short", "dup", "short+tok", "dup+tok"},
 		dnames: []string{"/a", "/a/b"}, dfaces: []uint64{fwsim.N2, fwsim.N3}, dtoks: []string{"none", "echo0"}, dfresh: []bool{false},
-		tops: []tOp{t100, t600, t5s, a600},
+		// late Data echoing the token of an Interest whose entry has already expired
+		dextra: []dOp{{face: fwsim.N2, name: "/a", tok: "echoGone"}, {face: fwsim.N2, name: "/a/b", tok: "echoGone"}},
+		tops:   []tOp{t100, t600, t5s, a600},
 	},
 }
 
@@ -268,6 +270,7 @@ type inst struct {
 	lastW []byte // its wire
 	lastT []byte // its token
 	live  []liveTok
+	gone  []uint32 // issued tokens whose PIT entry no longer exists (oldest first)
 	dump  table.VerifPitCsDump
 }
 
@@ -345,6 +348,19 @@ func (in *inst) refresh() {
 			in.live = append(in.live, liveTok{tok: e.Token, key: k})
 		}
 	}
+	// issued tokens whose entry has left the PIT (satisfied and reaped, or expired): a late Data
+	// may still echo them
+	liveSet := map[uint32]bool{}
+	for _, lt := range in.live {
+		liveSet[lt.tok] = true
+	}
+	in.gone = in.gone[:0]
+	for t := range in.ref.issued {
+		if !liveSet[t] {
+			in.gone = append(in.gone, t)
+		}
+	}
+	sort.Slice(in.gone, func(a, b int) bool { return in.gone[a] < in.gone[b] })
 }
 
 func (s *sys) Ops(i any) []explore.Op {
@@ -362,6 +378,9 @@ func (s *sys) Ops(i any) []explore.Op {
 				continue
 			}
 			if d.d.tok == "echo1" && len(in.live) < 2 {
+				continue
+			}
+			if d.d.tok == "echoGone" && len(in.gone) < 1 {
 				continue
 			}
 		}
@@ -426,6 +445,9 @@ func (s *sys) step(in *inst, op explore.Op, check bool) (v []report.Violation) {
 			lp.PitToken = fwsim.MakeToken(0, in.live[0].tok)
 		case "echo1":
 			lp.PitToken = fwsim.MakeToken(0, in.live[1].tok)
+		case "echoGone":
+			// a token this forwarder did attach, to an Interest whose PIT entry is gone by now
+			lp.PitToken = fwsim.MakeToken(0, in.gone[len(in.gone)-1])
 		case "foreign":
 			lp.PitToken = fwsim.MakeToken(0, 0xFFFFFFF1)
 		case "four":
@@ -526,6 +548,7 @@ func (s *sys) Canon(i any) string {
 	for k, lt := range in.live {
 		fmt.Fprintf(&b, "T%d=%s;", k, lt.key)
 	}
+	fmt.Fprintf(&b, "gone=%v;", len(in.gone) > 0)
 	// nonce relations and dead-nonce status per name
 	nn := make([]string, 0, len(r.lastNonce))
 	for n := range r.lastNonce {
